@@ -106,7 +106,7 @@ func ruleP1(c *Ctx) {
 			}
 			if ex, ok := e.(*ssa.Extract); ok {
 				if call, ok := ex.Tuple.(*ssa.Call); ok {
-					if g := m.callee(call.Common()); g != nil && g.Name() == "getPluginConfig" && ex.Index == 0 {
+					if g := m.callee(call.Common()); g != nil && g == m.method(pkgAdapt, "Adaptation", "getPluginConfig") && ex.Index == 0 {
 						// called with the parse results
 						a1, ok1 := call.Call.Args[1].(*ssa.Extract)
 						a2, ok2 := call.Call.Args[2].(*ssa.Extract)
